@@ -151,12 +151,15 @@ def run(ctx: core.Ctx):
     # refusal
     for k, p in NONMONO.items():
         t = build(fl, k, list(p), 1.0)
-        ctx.count()
-        try:
-            r = t.tsukamoto(0.5)
-            ctx.violation(f"{k}.tsukamoto/refusal", {"k": k}, "an exception", repr(r))
-        except Exception:
-            pass
+        # whatever the degree: inside (0, h), exactly 0 (a rule that did not fire), 0-d, a vector of zeros, a mixed vector
+        for y_ in (0.5, 0.0, np.array(0.0), np.zeros(3), np.array([0.0, 0.5]), 1.0):
+            ctx.count()
+            try:
+                r = t.tsukamoto(y_)
+                ctx.violation(f"{k}.tsukamoto/refusal", {"k": k, "y": np.asarray(y_).tolist()}, "an exception", repr(r), note=f"{k} is not monotonic but answers tsukamoto({np.asarray(y_).tolist()}) with {r!r}")
+                break
+            except Exception:
+                pass
         if t.is_monotonic():
             ctx.violation(f"{k}.is_monotonic", {"k": k}, False, True)
     # a term of any other kind: either it does not declare itself monotonic and refuses, or it declares itself monotonic and then
